@@ -35,6 +35,12 @@ def cases(tier, seed):
                 for shp in SHAPES:
                     out.append({'kind': 'conv', 'seed': case_seed('C17', seed, D, P, kind, shp),
                                 'params': {'D': D, 'P': P, 'vals': kind, 'shape': list(shp)}})
+                if kind == 'complex':
+                    # complex values with an infinite or a signed-zero component: moving data must not compute with it
+                    # ((inf+0j) * 1.0 is inf+nanj, (2-0j) * 1.0 is 2+0j)
+                    for shp in SHAPES:
+                        out.append({'kind': 'conv', 'seed': case_seed('C17', seed, D, P, 'complexspecial', shp),
+                                    'params': {'D': D, 'P': P, 'vals': 'complexspecial', 'shape': list(shp)}})
                 if kind in ('random', 'integers'):
                     for shp in RANK4:                       # coefficient shapes of rank 4 and 5
                         out.append({'kind': 'conv', 'seed': case_seed('C17', seed, D, P, kind, shp),
@@ -69,8 +75,13 @@ def _vals(rng, shape, kind):
         f = v.reshape(-1)
         m = rng.random(size=f.size)
         f[m < 0.25] = -0.0; f[(m >= 0.25) & (m < 0.4)] = 0.0          # zeros of both signs: conversions move bits, they do not compute
-    if kind == 'complex':
+    if kind in ('complex', 'complexspecial'):
         v = v + 1j * rng.normal(size=shape)
+    if kind == 'complexspecial' and v.size:
+        f = v.reshape(-1)
+        spec = [complex(np.inf, 0.0), complex(2.0, -0.0), complex(-0.0, -3.0), complex(0.0, np.inf), complex(-np.inf, -0.0), complex(-0.0, 0.0)]
+        for k_ in range(min(f.size, 4)):
+            f[rng.integers(f.size)] = spec[int(rng.integers(len(spec)))]
     if kind == 'bottom':
         # normal numbers just above the smallest one (tiny ... 2 tiny, odd last bits): a + a is exact there, a / 2 is not
         tiny = np.finfo(float).tiny
@@ -81,7 +92,7 @@ def _vals(rng, shape, kind):
 def _same(a, b):
     a = np.asarray(a); b = np.asarray(b)
     return a.shape == b.shape and np.array_equal(a, b, equal_nan=True) and \
-        np.array_equal(np.signbit(a.real), np.signbit(b.real))
+        np.array_equal(np.signbit(a.real), np.signbit(b.real)) and np.array_equal(np.signbit(a.imag), np.signbit(b.imag))
 
 
 def run_case(ctx, case):
@@ -202,6 +213,13 @@ def _conv(ctx, p, rng):
             # the same shift into a buffer of the caller that holds other data, and into the polynomial itself
             buf = UTPM(np.full(data.shape, 7.5, dtype=data.dtype)); u.shift(s, out=buf)
             own.shift(s, out=own)
+            # ... and into ANOTHER object that shares the polynomial's memory: a second wrapper around the same array, a column of a
+            # container shifted in place through two equal views of it
+            twin = UTPM(data.copy()); twin.shift(s, out=UTPM(twin.data))
+            cont = UTPM(np.stack([data, data * 0 + 7.5], axis=2)); cont[0].shift(s, out=cont[0])
+            if not (_same(twin.data, ref) and _same(cont.data[:, :, 0], ref) and _same(cont.data[:, :, 1], data * 0 + 7.5)):
+                ctx.violation('shift:out-shares-memory-with-the-polynomial', {'D': D, 'P': P, 'shape': shp, 's': s,
+                                                                               'form': 'second wrapper' if not _same(twin.data, ref) else 'views of a container'}); return
         except Exception as e:
             ctx.violation('shift:raises', {'D': D, 'P': P, 'shape': shp, 's': s, 'spelling': type(sp).__name__, 'error': repr(e)[:160],
                                            'polynomial_passed_as_out_left_intact': bool(_same(own.data, data))}); return
@@ -231,9 +249,6 @@ def _conv(ctx, p, rng):
             for fn_name, fn, arg in (('as_utpm', UTPM.as_utpm, elems), ('as_utpm', UTPM.as_utpm, elems.tolist()),
                                      ('as_utpm', UTPM.as_utpm, elemsF), ('as_utpm', UTPM.as_utpm, elemsT),
                                      ('ndarray2utpm', U.ndarray2utpm, elems)):
-                if fn_name == 'ndarray2utpm' and kind == 'nonfinite':
-                    ctx.skip('ndarray2utpm:nonfinite (zeros(dtype=UTPM) scales by the first data element)')
-                    continue
                 try:
                     y = fn(arg)
                 except Exception as e:
@@ -368,9 +383,6 @@ def _sym(ctx, p, rng):
             v2 = algopy.symvec(A, uplo)
             ok = _same(A, Aref) and _same(v2, v)
         else:
-            if kind == 'nonfinite':
-                ctx.skip('symvec/vecsym UTPM: non-finite (zeros(dtype=UTPM) scales by the first data element)')
-                continue
             v = UTPM(vd.copy())
             A = [algopy.vecsym(v), UTPM.vecsym(v)][n % 2]
             Aref = np.zeros((D, P, n, n), dtype=vd.dtype)
